@@ -330,9 +330,13 @@ pub fn derive_binary_codec(input: TokenStream) -> TokenStream {
             })
         }
     } else {
+        let name_string = name.to_string();
         quote! {
             #(#deserialization_commands)*
-            unreachable!()
+            Err(desert::Error::InvalidConstructorId {
+                constructor_id: deserializer.read_constructor_idx()?,
+                type_name: #name_string.to_string(),
+            })
         }
     };
 
